@@ -1,4 +1,8 @@
 """pdv -- a small verification-condition generator for the numba-style Python subset used by
 py-pde.  It never imports ``pde``; it reads /repo with ``ast`` on every run (see DESIGN.md §2)."""
 
-REPO = "/repo"
+import os as _os
+
+# the registered checks always verify /repo; PDV_REPO lets the seeded-change regression (tools/run_seeds.sh)
+# point the same machinery at a scratch worktree
+REPO = _os.environ.get("PDV_REPO", "/repo")
